@@ -5,7 +5,7 @@
 (* (harness/cmd/h-res, hook-free, built with the race detector).            *)
 (*                                                                           *)
 (* trace.ndjson = one or more histories, each                               *)
-(*   {e:"reset", h, keys, watches:[{wid,q,snap,eos,first}]}   header         *)
+(*   {e:"reset", h, keys, watches:[{wid,q,snap,eos,first,live,nlive}]} header*)
 (*   {e:"inv", id, g, op, res, at}   call starts  (res = what it later       *)
 (*                                   returned: a prophecy, joined in by the  *)
 (*                                   recorder)                               *)
@@ -14,6 +14,7 @@
 (*   {e:"wev", wid, ph, kind, r}     Watch.Next returned an event            *)
 (*   {e:"wrd", wid, k, res}          the Read(k) made right after an event   *)
 (*   {e:"wdone", wid}                watcher has seen the final fence writes *)
+(*   {e:"stall", pending}            recorder's watchdog: nothing moved for 20s*)
 (* in the real-time order given by a process-wide atomic counter.           *)
 (*                                                                           *)
 (* invoke / return are trace events; the state change of a call is the      *)
@@ -31,7 +32,8 @@
 (*    window (Lin(i, T)) or when the watcher's first event is consumed.      *)
 (* Acceptance: history h is accepted when its last event is consumed with    *)
 (* nothing pending (<<"ACCEPT", h>>).  If the search of a history is         *)
-(* exhausted first, <<"HWM", n>> names the event TLC could not get past.     *)
+(* exhausted first, <<"HWM", h, n>> says how many of its events TLC got past.*)
+(* Every history of the file is an initial state: one run decides them all.  *)
 (* Relax (diagnosis only): a set of check names that are switched off, used  *)
 (* to name the predicate a rejected history violates; "full-search" relaxes  *)
 (* nothing but switches the first two reductions off (cross-check).          *)
@@ -48,11 +50,18 @@ VARIABLES l,     \* next event to consume
           st,    \* ResourceStore state reconstructed along the chosen linearization
           pend,  \* indexes of inv events whose call is not linearized yet
           done,  \* ids of calls linearized but not returned yet
-          ws     \* watch id -> watch (only watches whose listing position is chosen)
-vars == <<l, hdr, st, pend, done, ws>>
+          ws,    \* watch id -> watch (only watches whose listing position is chosen)
+          aux    \* per history, computed once from the recorded data at its header:
+                 \*   prod = {<<k, ver>>} versions produced by the successful writes, rst = indexes of restore calls
+vars == <<l, hdr, st, pend, done, ws, aux>>
 
 Max2(a, b) == IF a > b THEN a ELSE b
-Hwm(n) == TLCSet(1, Max2(TLCGet(1), n))
+\* TLC registers (run with -workers 1): register h = high-water mark of the history whose header is event h,
+\* register N + h = 1 once that history has been accepted (its remaining alternatives are then not explored)
+Headers == {i \in 1..N : Trace[i].e = "reset"}
+CurH == IF hdr = 0 THEN l ELSE hdr
+Hwm(n) == TLCSet(CurH, Max2(TLCGet(CurH), n))
+Accepted == TLCGet(N + CurH) = 1
 
 ---------------------------------------------------------------------------
 (* the recorded history, as data *)
@@ -79,16 +88,36 @@ ResOK(exp, got, kind) ==
   \/ /\ exp.t = "err" /\ got.t = "err" /\ got.e \in exp.errs
   \/ /\ exp.t = "ok" /\ got.t = "ok" /\ ToSet(got.rs) = exp.rs /\ Len(got.rs) = Cardinality(exp.rs)
 
+FullSearch == "full-search" \in Relax
 NewVer(e) == IF e.op.t = "write" /\ e.res.t = "ok" /\ Len(e.res.rs) = 1 THEN e.res.rs[1].ver ELSE ""
 AbsOp(o) == IF o.t = "restore" THEN [t |-> "restore", rs |-> ToSet(o.rs)] ELSE o
-\* the call MAY change the state in some linearization (a DeleteCAS that returned nil may have been a no-op)
-Mutates(e) == e.op.t = "restore" \/ (e.op.t \in {"write", "delete"} /\ e.res.t = "ok")
+\* the call MAY change the state in some linearization (a DeleteCAS that returned nil may have been a
+\* no-op; one that presented a version no write of the history produced certainly was)
+Mutates(e) == \/ e.op.t = "restore"
+              \/ e.op.t = "write" /\ e.res.t = "ok"
+              \/ e.op.t = "delete" /\ e.res.t = "ok" /\ (FullSearch \/ <<e.op.k, e.op.pv>> \in aux.prod)
 
-\* watches whose listing may be positioned right before the mutation of call i takes effect
+\* the event the mutation of call i publishes, and the first live event watch wid received for resource k
+PubOf(i) == IF Trace[i].op.t = "write" THEN [k |-> Trace[i].op.k, kind |-> "upsert", ver |-> NewVer(Trace[i])]
+            ELSE [k |-> Trace[i].op.k, kind |-> "delete", ver |-> Trace[i].op.pv]
+FirstLive(wid, k) == LET L == WDecl(wid).live IN {L[x] : x \in {y \in DOMAIN L : L[y].k = k}}
+NoRestoreAhead == \A j \in aux.rst : j < l /\ j \notin pend
+
+\* watches whose listing may be positioned right before the mutation of call i takes effect: the listing
+\* is right now, and what the watch received first for that resource is this mutation's event (or nothing).
+\* Before a restore only a watch that received no live event at all.
 Cands(i) == {wid \in Untaken :
                /\ WDecl(wid).first = 0 \/ Trace[l].at <= WDecl(wid).first
-               /\ Trace[i].op.t = "restore" \/ Matches(WDecl(wid).q, Trace[i].op.k)
+               /\ IF Trace[i].op.t = "restore" THEN FullSearch \/ WDecl(wid).nlive = 0
+                  ELSE /\ Matches(WDecl(wid).q, Trace[i].op.k)
+                       /\ FullSearch \/ FirstLive(wid, Trace[i].op.k) \subseteq {PubOf(i)}
                /\ ListingOK(st, wid)}
+\* ... and MUST be positioned there: the listing shows the resource this call is about to change, versions
+\* never come back (no restore ahead), so the listing will never be right again
+Forced(i) == {wid \in Cands(i) :
+                /\ Trace[i].op.t # "restore" /\ WDecl(wid).eos /\ NoRestoreAhead
+                /\ \E x \in DOMAIN WDecl(wid).snap : WDecl(wid).snap[x].k = Trace[i].op.k}
+Takes(i) == IF ~Mutates(Trace[i]) THEN {{}} ELSE {Forced(i) \cup X : X \in SUBSET (Cands(i) \ Forced(i))}
 
 (* Lin(i, T): call i takes effect now, exactly as the sequential specification says, and     *)
 (* returns what was recorded; the listings of the watches in T are positioned just before it *)
@@ -100,7 +129,7 @@ Lin(i, T) ==
      /\ ws' = Take(ws, T)
      /\ pend' = pend \ {i}
      /\ done' = done \cup {e.id}
-     /\ UNCHANGED <<l, hdr>>
+     /\ UNCHANGED <<l, hdr, aux>>
 
 \* calls that change the state in NO linearization (reads, refused writes) and whose recorded result
 \* is right in the current state: linearizing such a call at once loses nothing
@@ -122,12 +151,15 @@ RestoreIn(k, a, b) == \E x \in a..b : st.log[k][x].kind = "restore"
 \* in commit order, none skipped, none repeated, none stale, never across a restore.
 \* (the Relax alternatives exist only to NAME what a rejected history violates)
 LiveNext(w, e) ==
-  LET k == e.r[1].k IN
-  IF k \notin Keys(st) \/ ~Matches(w.q, k) THEN (IF "watch-order" \in Relax THEN {w} ELSE {})
-  ELSE (IF HasNext(st, w, k) /\ SameEvent(k, NextEntry(st, w, k), e) THEN {Advance(w, k)} ELSE {})
-       \cup (IF "watch-order-xrestore" \in Relax /\ \E j \in Olds(w, k, e) : RestoreIn(k, j + 1, w.cur[k]) THEN {w} ELSE {})
-       \cup (IF "watch-order-dup" \in Relax /\ \E j \in Olds(w, k, e) : ~RestoreIn(k, j + 1, w.cur[k]) THEN {w} ELSE {})
-       \cup (IF "watch-order" \in Relax THEN {w} ELSE {})
+  LET k == e.r[1].k
+      strict == IF k \in Keys(st) /\ HasNext(st, w, k) /\ SameEvent(k, NextEntry(st, w, k), e) THEN {Advance(w, k)} ELSE {}
+      \* a relaxed alternative is offered only where the strict rule fails, and says so (<<"WEAK", event, name>>)
+      weak(name, cond) == IF strict = {} /\ name \in Relax /\ cond /\ PrintT(<<"WEAK", l, name>>) THEN {w} ELSE {}
+  IN IF k \notin Keys(st) \/ ~Matches(w.q, k) THEN weak("watch-order", TRUE)
+     ELSE strict
+          \cup weak("watch-order-xrestore", \E j \in Olds(w, k, e) : RestoreIn(k, j + 1, w.cur[k]))
+          \cup weak("watch-order-dup", \E j \in Olds(w, k, e) : ~RestoreIn(k, j + 1, w.cur[k]))
+          \cup weak("watch-order", TRUE)
 
 WEvNext(e) ==
   IF ~CanPosition(e.wid) THEN {}
@@ -152,27 +184,27 @@ WDoneOK(e) == \/ "watch-done" \in Relax
 (* consuming recorded events *)
 Inv == /\ Trace[l].e = "inv"
        /\ pend' = pend \cup {l}
-       /\ UNCHANGED <<st, done, ws, hdr>>
+       /\ UNCHANGED <<st, done, ws, hdr, aux>>
 
 Ret == /\ Trace[l].e = "ret"
        /\ Trace[l].id \in done
        /\ done' = done \ {Trace[l].id}
-       /\ UNCHANGED <<st, pend, ws, hdr>>
+       /\ UNCHANGED <<st, pend, ws, hdr, aux>>
 
 \* a watch opened after a restore completed cannot be served a listing from before it
 WOpen == /\ Trace[l].e = "wopen"
          /\ Trace[l].wid \in DOMAIN ws => ws[Trace[l].wid].ep = st.ep
-         /\ UNCHANGED <<st, pend, done, ws, hdr>>
+         /\ UNCHANGED <<st, pend, done, ws, hdr, aux>>
 
 WEv == /\ Trace[l].e = "wev"
        /\ \E w2 \in WEvNext(Trace[l]) : ws' = SetW(Trace[l].wid, w2)
-       /\ UNCHANGED <<st, pend, done, hdr>>
+       /\ UNCHANGED <<st, pend, done, hdr, aux>>
 
 WRd == /\ Trace[l].e = "wrd" /\ WRdOK(Trace[l])
-       /\ UNCHANGED <<st, pend, done, ws, hdr>>
+       /\ UNCHANGED <<st, pend, done, ws, hdr, aux>>
 
 WDone == /\ Trace[l].e = "wdone" /\ WDoneOK(Trace[l])
-         /\ UNCHANGED <<st, pend, done, ws, hdr>>
+         /\ UNCHANGED <<st, pend, done, ws, hdr, aux>>
 
 \* the next event cannot be consumed in the current state, or it fixes the position of a watch's listing:
 \* some pending mutation may have to take effect first.  (a linearization point commutes with every
@@ -209,39 +241,50 @@ Static(h) ==
       THEN {"VersionsFresh"} ELSE {})
 
 Reset ==
-  /\ Trace[l].e = "reset"
-  /\ pend = {} /\ done = {}
-  /\ IF hdr = 0 THEN TRUE ELSE PrintT(<<"ACCEPT", Trace[hdr].h>>)
+  /\ Trace[l].e = "reset" /\ hdr = 0
   /\ LET v == Static(l) IN IF v = {} THEN TRUE ELSE PrintT(<<"REJECT", l, v>>)
   /\ st' = InitState(ToSet(Trace[l].keys))
   /\ hdr' = l /\ ws' = <<>>
+  /\ aux' = [prod |-> {<<Trace[i].op.k, Trace[i].res.rs[1].ver>> : i \in OkWrites(l)}, rst |-> Restores(l)]
   /\ UNCHANGED <<pend, done>>
 
+\* the recorder's watchdog saw no progress at all for many seconds: calls never returned (deadlock) or a
+\* watcher never received the final events.  Progress: this never happens.
+Stall == /\ Trace[l].e = "stall"
+         /\ "stall" \in Relax
+         /\ pend' = {} /\ done' = {}
+         /\ UNCHANGED <<st, ws, hdr, aux>>
+
 Consume == /\ l <= N
-           /\ (Reset \/ Inv \/ Ret \/ WOpen \/ WEv \/ WRd \/ WDone)
+           /\ (Reset \/ Inv \/ Ret \/ WOpen \/ WEv \/ WRd \/ WDone \/ Stall)
            /\ l' = l + 1
            /\ Hwm(l + 1)
 
-Finish == /\ l = N + 1 /\ pend = {} /\ done = {} /\ hdr # 0
+\* the history is accepted: its last event is consumed and nothing is pending
+Finish == /\ hdr # 0 /\ (IF l = N + 1 THEN TRUE ELSE Trace[l].e = "reset")
+          /\ pend = {} /\ done = {}
           /\ PrintT(<<"ACCEPT", Trace[hdr].h>>)
-          /\ PrintT(<<"ALLDONE", N>>)
-          /\ TLCSet("exit", TRUE)
+          /\ TLCSet(N + hdr, 1)
           /\ UNCHANGED vars
 
-Init == /\ l = 1 /\ hdr = 0 /\ st = [res |-> <<>>, log |-> <<>>, ep |-> 0]
-        /\ pend = {} /\ done = {} /\ ws = <<>>
-        /\ TLCSet(1, 1)
+\* one initial state per recorded history: the histories are decided independently in one run
+Init == \E h \in Headers :
+          /\ l = h /\ hdr = 0 /\ st = [res |-> <<>>, log |-> <<>>, ep |-> 0]
+          /\ pend = {} /\ done = {} /\ ws = <<>> /\ aux = [prod |-> {}, rst |-> {}]
+          /\ TLCSet(h, h) /\ TLCSet(N + h, 0)
 
-Next == IF "full-search" \in Relax
+Step == IF FullSearch
         THEN \/ Consume
              \/ (l <= N /\ \E i \in pend : \E T \in SUBSET (IF Mutates(Trace[i]) THEN Cands(i) ELSE {}) : Lin(i, T))
              \/ Finish
         ELSE
         IF Eager # {} THEN EagerLin
         ELSE \/ Consume
-             \/ (NeedLin /\ \E i \in pend : Mutates(Trace[i]) /\ \E T \in SUBSET Cands(i) : Lin(i, T))
+             \/ (NeedLin /\ \E i \in pend : Mutates(Trace[i]) /\ \E T \in Takes(i) : Lin(i, T))
              \/ Finish
+Next == ~Accepted /\ Step
 Spec == Init /\ [][Next]_vars
 
-Post == PrintT(<<"HWM", TLCGet(1)>>)
+\* for every history: its number and how many of its events the search got past
+Post == \A h \in Headers : PrintT(<<"HWM", Trace[h].h, TLCGet(h) - h>>)
 =============================================================================
